@@ -265,6 +265,8 @@ def accept_cells(thorough):
                     if not thorough and layout in ('second', 'outstanding') and name not in ('valid-signed', 'sig-content-tampered', 'cond-expired', 'audience-other', 'scd-irt-other'):
                         continue
                     out.append(dict(t='accept', inner=name, layout=layout, wants=wants, resp_signed=rs))
+    for how, wants, rs in itertools.product(('encrypted-attribute:own-key', 'encrypted-attribute:foreign-key'), WANTS, (False, True)):
+        out.append(dict(t='undec', how=how, layout='first', wants=wants, resp_signed=rs))
     for name, layout, wants in itertools.product(UNDEC, ('first', 'second'), WANTS):
         out.append(dict(t='undec', how=name, layout=layout, wants=wants, resp_signed=True))
         out.append(dict(t='undec', how=name, layout=layout, wants=wants, resp_signed=False))
@@ -336,6 +338,26 @@ def evaluate_accept(c):
                 break
         _c.pop(('sp', 'second', tuple(c['wants']), False), None)
         return {'enc': [bad is None, None], 'bad': bad, 'trace': trace}
+    if c['t'] == 'undec' and c['how'].startswith('encrypted-attribute'):
+        # one attribute of a plain assertion travels as EncryptedAttribute (for the SP's key, or for a key it does not
+        # hold): an identity may come out only with that attribute in it, never with the attribute silently missing
+        x = forge.build(env.BASE, sign_resp='idpA' if c['resp_signed'] else None)
+        d = xmlsec.parse_doc(x)
+        attr = [e for e in xmlsec.dfs(d.documentElement) if e.localName == 'Attribute'][0]
+        name = attr.getAttribute('FriendlyName') or attr.getAttribute('Name')
+        wrap = d.createElementNS(forge.SAML, 'saml:EncryptedAttribute')
+        attr.parentNode.replaceChild(wrap, attr)
+        wrap.appendChild(attr)
+        xmlsec.encrypt_node(d, attr, forge.enc_template(), world.pub('spXenc1' if c['how'].endswith('own-key') else 'spY'))
+        doc = d.documentElement.toxml()
+        if c['resp_signed']:
+            doc = forge.sign(doc, 'R1', 'idpA')
+        sp = sp_for(c['layout'], tuple(c['wants']))
+        e = oracle.accept_response(sp, doc, outstanding=OUTSTANDING)
+        bad = None
+        if e['accept'] and not any(k.lower() == name.lower() for k in e['identity']['ava']):
+            bad = 'identity-with-an-encrypted-attribute-silently-dropped'
+        return {'enc': [e['accept'], e.get('exc')], 'bad': bad}
     if c['t'] == 'undec':
         sp = sp_for(c['layout'], tuple(c['wants']))
         u = UNDEC[c['how']]
